@@ -1,3 +1,1813 @@
-//! C09 harnesses (see /verif/DESIGN.md section 5).
+//! C09 - checksums equal the RFC 1071 Internet checksum (DESIGN.md section 5, C09).
+//!
+//! Direct comparison of `add_slice` with a reference sum does not terminate in CBMC, so the
+//! claim is decided in four layers; the glue between them is substitution and induction over
+//! the call sequence and is written out in reg/c09.py (PROP["claim"]):
+//!
+//! 1. kernels, real code, full accumulator width, all inputs (`k64_*`, `k32_*`, `k_no_zero`)
+//! 2. `add_slice` loop structure with the kernels replaced by UNINTERPRETED functions and a
+//!    ghost call log (`slice64_*`, `slice32_*`, `split64`) - stronger and far cheaper than the
+//!    reduced arithmetic model DESIGN.md planned for this layer (that query needed 15 min / 8 GB
+//!    for N = 41; the structural one is free of arithmetic and reaches N = 64)
+//! 3. lemmas about the reference itself (`ref_*`), plus `e2e_small` without any stub
+//! 4. protocol composition, kernels + `add_slice` replaced by the reduced 16-bit one's
+//!    complement models that 1 and 2 justify (`m64_*`)
+//!
+//! The reference is written from RFC 1071 / 791 / 768 / 9293 / 3540 / 8200 / 792 / 1191 / 4443 /
+//! 4861 / 1112 / 2236 / 3376 / 9776 and shares no code and no constant with etherparse.
+//! Target: 64-bit little endian (Kani's host); `Sum16BitWords` uses the u64 module there.
 
-crate::harnesses! {}
+use crate::sym::{any, any_le, assume};
+use crate::tight::Tight;
+use crate::witness;
+use etherparse::checksum::{u32_16bit_word as k32, u64_16bit_word as k64, Sum16BitWords};
+
+// ================================================================= reference (RFC 1071)
+
+/// 16-bit one's complement addition: add, then add the carry back in (end-around carry)
+#[inline(always)]
+pub fn oadd(x: u16, y: u16) -> u16 {
+    let s = (x as u32) + (y as u32);
+    ((s & 0xffff) + (s >> 16)) as u16
+}
+
+/// the abstraction of a 64-bit accumulator: its one's complement sum so far.
+/// Defined through the REAL `ones_complement`, so that "result == !fold(acc)" is a tautology
+/// and everything that is proved about `fold` is proved about the value the crate returns.
+#[inline(always)]
+fn fold64(a: u64) -> u16 {
+    !k64::ones_complement(a)
+}
+#[inline(always)]
+fn fold32(a: u32) -> u16 {
+    !k32::ones_complement(a)
+}
+
+#[inline(always)]
+fn limb64(x: u64, i: u32) -> u16 {
+    ((x >> (16 * i)) & 0xffff) as u16
+}
+
+// ================================================================= layer 1: kernels (real code)
+
+/// fold(add_2bytes(a, v)) == oadd(fold a, word v), every 64-bit accumulator
+pub fn k64_add2() {
+    let a: u64 = any();
+    let v: [u8; 2] = any();
+    let r = k64::add_2bytes(a, v);
+    witness!(r < a, "carry_out_of_64_bits");
+    witness!(fold64(a) == 0xffff && v[0] != 0, "minus_zero_acc");
+    assert!(fold64(r) == oadd(fold64(a), u16::from_ne_bytes(v)));
+}
+
+/// per-limb lemma: adding one 16-bit word at limb position I with the real 64-bit
+/// end-around-carry add is one `oadd` under the abstraction
+fn k64_limb(i: u32) {
+    let a: u64 = any();
+    let w: u16 = any();
+    let r = k64::add_8bytes(a, ((w as u64) << (16 * i)).to_ne_bytes());
+    witness!(r < a, "carry_out_of_64_bits");
+    assert!(fold64(r) == oadd(fold64(a), w));
+}
+pub fn k64_limb0() {
+    k64_limb(0)
+}
+pub fn k64_limb1() {
+    k64_limb(1)
+}
+pub fn k64_limb2() {
+    k64_limb(2)
+}
+pub fn k64_limb3() {
+    k64_limb(3)
+}
+
+/// split lemma: one 64-bit end-around-carry add == four adds of the separate limbs
+pub fn k64_split8() {
+    let a: u64 = any();
+    let v: [u8; 8] = any();
+    let x = u64::from_ne_bytes(v);
+    let l = |i: u32| (x & (0xffffu64 << (16 * i))).to_ne_bytes();
+    let direct = k64::add_8bytes(a, v);
+    let step = k64::add_8bytes(k64::add_8bytes(k64::add_8bytes(k64::add_8bytes(a, l(0)), l(1)), l(2)), l(3));
+    witness!(direct < a, "carry_out_of_64_bits");
+    assert!(direct == step);
+}
+
+/// add_4bytes is add_8bytes of the zero extended value (so the limb lemmas apply, upper limbs 0)
+pub fn k64_add4_widen() {
+    let a: u64 = any();
+    let v: [u8; 4] = any();
+    let wide = u64::from(u32::from_ne_bytes(v));
+    witness!(k64::add_4bytes(a, v) < a, "carry_out_of_64_bits");
+    assert!(k64::add_4bytes(a, v) == k64::add_8bytes(a, wide.to_ne_bytes()));
+    assert!(limb64(wide, 2) == 0 && limb64(wide, 3) == 0);
+}
+
+/// the limbs of the native-endian integer are the native-endian 16-bit words of the bytes,
+/// in byte order on this (little endian) target; reduced accumulators are their own fold
+pub fn k64_words_and_reduced() {
+    let v: [u8; 8] = any();
+    let x = u64::from_ne_bytes(v);
+    #[cfg(target_endian = "little")]
+    {
+        assert!(limb64(x, 0) == u16::from_ne_bytes([v[0], v[1]]));
+        assert!(limb64(x, 1) == u16::from_ne_bytes([v[2], v[3]]));
+        assert!(limb64(x, 2) == u16::from_ne_bytes([v[4], v[5]]));
+        assert!(limb64(x, 3) == u16::from_ne_bytes([v[6], v[7]]));
+    }
+    #[cfg(target_endian = "big")]
+    {
+        assert!(limb64(x, 3) == u16::from_ne_bytes([v[0], v[1]]));
+        assert!(limb64(x, 2) == u16::from_ne_bytes([v[2], v[3]]));
+        assert!(limb64(x, 1) == u16::from_ne_bytes([v[4], v[5]]));
+        assert!(limb64(x, 0) == u16::from_ne_bytes([v[6], v[7]]));
+    }
+    let r: u16 = any();
+    assert!(fold64(r as u64) == r);
+    assert!(fold32(r as u32) == r);
+    assert!(oadd(r, 0) == r);
+    assert!(k64::ones_complement(0) == 0xffff && k32::ones_complement(0) == 0xffff);
+}
+
+/// `ones_complement_with_no_zero` never yields 0 and differs from `ones_complement` only there
+pub fn k_no_zero() {
+    let a: u64 = any();
+    let c = k64::ones_complement(a);
+    let z = k64::ones_complement_with_no_zero(a);
+    witness!(c == 0 && a < 0xffff_ffff, "complement_is_zero_64");
+    assert!(z != 0);
+    assert!(if c == 0 { z == 0xffff } else { z == c });
+    let b: u32 = any();
+    let c = k32::ones_complement(b);
+    let z = k32::ones_complement_with_no_zero(b);
+    witness!(c == 0 && b < 0xffff_ffff, "complement_is_zero_32");
+    assert!(z != 0);
+    assert!(if c == 0 { z == 0xffff } else { z == c });
+}
+
+// ---- 32-bit accumulator module (compiled on every target, public API)
+
+pub fn k32_add2() {
+    let a: u32 = any();
+    let v: [u8; 2] = any();
+    let r = k32::add_2bytes(a, v);
+    witness!(r < a, "carry_out_of_32_bits");
+    assert!(fold32(r) == oadd(fold32(a), u16::from_ne_bytes(v)));
+}
+
+fn k32_limb(i: u32) {
+    let a: u32 = any();
+    let w: u16 = any();
+    let r = k32::add_4bytes(a, ((w as u32) << (16 * i)).to_ne_bytes());
+    witness!(r < a, "carry_out_of_32_bits");
+    assert!(fold32(r) == oadd(fold32(a), w));
+}
+pub fn k32_limb0() {
+    k32_limb(0)
+}
+pub fn k32_limb1() {
+    k32_limb(1)
+}
+
+pub fn k32_split4() {
+    let a: u32 = any();
+    let v: [u8; 4] = any();
+    let x = u32::from_ne_bytes(v);
+    let direct = k32::add_4bytes(a, v);
+    let step = k32::add_4bytes(k32::add_4bytes(a, (x & 0xffff).to_ne_bytes()), (x & 0xffff_0000).to_ne_bytes());
+    witness!(direct < a, "carry_out_of_32_bits");
+    assert!(direct == step);
+    #[cfg(target_endian = "little")]
+    {
+        assert!((x & 0xffff) as u16 == u16::from_ne_bytes([v[0], v[1]]));
+        assert!((x >> 16) as u16 == u16::from_ne_bytes([v[2], v[3]]));
+    }
+    #[cfg(target_endian = "big")]
+    {
+        assert!((x >> 16) as u16 == u16::from_ne_bytes([v[0], v[1]]));
+        assert!((x & 0xffff) as u16 == u16::from_ne_bytes([v[2], v[3]]));
+    }
+}
+
+// ================================================================= reduced models (stubs)
+//
+// A model works on REDUCED accumulators (<= 0xffff, asserted) and is the abstraction of the
+// real kernel: layer 1 proves  fold(real(a, v)) == model(fold a, v)  for every accumulator a,
+// and fold(r) == r for reduced r. The control flow of `add_slice` and of every checksum
+// function of the crate is independent of the accumulator value, so a run with the models
+// from the reduced start fold(a) performs the same kernel calls on the same bytes as the real
+// run from a, and by induction over the calls  fold(real state) == model state  throughout;
+// the final `ones_complement` (real code in both runs) therefore returns the same value.
+
+#[inline(always)]
+fn red(a: u64) -> u16 {
+    assert!(a <= 0xffff, "C09 model: accumulator left the reduced domain");
+    a as u16
+}
+
+pub fn m64_add2(start: u64, v: [u8; 2]) -> u64 {
+    oadd(red(start), u16::from_ne_bytes(v)) as u64
+}
+pub fn m64_add4(start: u64, v: [u8; 4]) -> u64 {
+    let x = u64::from(u32::from_ne_bytes(v));
+    oadd(oadd(red(start), limb64(x, 0)), limb64(x, 1)) as u64
+}
+pub fn m64_add8(start: u64, v: [u8; 8]) -> u64 {
+    let x = u64::from_ne_bytes(v);
+    oadd(oadd(oadd(oadd(red(start), limb64(x, 0)), limb64(x, 1)), limb64(x, 2)), limb64(x, 3)) as u64
+}
+/// native-endian 16-bit words of a byte string, odd length padded with one zero byte,
+/// folded from `start` with `oadd` from left to right
+pub fn ref_ne(start: u16, s: &[u8]) -> u16 {
+    let mut acc = start;
+    let mut i = 0usize;
+    while i + 1 < s.len() {
+        acc = oadd(acc, u16::from_ne_bytes([s[i], s[i + 1]]));
+        i += 2;
+    }
+    if i < s.len() {
+        acc = oadd(acc, u16::from_ne_bytes([s[i], 0]));
+    }
+    acc
+}
+
+// ================================================================= layer 2: add_slice structure
+//
+// The kernels are replaced by UNINTERPRETED functions: every call returns a fresh
+// unconstrained value and is recorded in a ghost log (accumulator passed in, bytes passed in,
+// value returned). The real kernels are one instance of "some function", and the control
+// flow of `add_slice` never looks at an accumulator, so whatever is proved about the logged
+// call sequence holds for the real run. Proved: the calls thread the accumulator from the
+// start value to the returned value and consume the slice front to back in consecutive chunks
+// of 8/4/2 bytes, the last byte of an odd slice padded with one zero byte, nothing skipped,
+// nothing read twice, nothing read outside. With layer 1 (each kernel folds the words of its
+// chunk in order) this gives  fold(add_slice(a, s)) == ref_ne(fold a, s)  by induction.
+
+pub mod ghost {
+    pub const CAP: usize = 40;
+    pub static mut CALLS: usize = 0;
+    pub static mut ACC_IN: [u64; CAP] = [0; CAP];
+    pub static mut ACC_OUT: [u64; CAP] = [0; CAP];
+    pub static mut SIZE: [u8; CAP] = [0; CAP];
+    pub static mut BYTES: [[u8; 8]; CAP] = [[0; 8]; CAP];
+
+    pub fn reset() {
+        unsafe { CALLS = 0 }
+    }
+    pub fn record(acc_in: u64, bytes: [u8; 8], size: u8) -> u64 {
+        let out: u64 = crate::sym::any();
+        unsafe {
+            let k = CALLS;
+            assert!(k < CAP, "C09 ghost log overflow");
+            ACC_IN[k] = acc_in;
+            ACC_OUT[k] = out;
+            SIZE[k] = size;
+            BYTES[k] = bytes;
+            CALLS = k + 1;
+        }
+        out
+    }
+}
+pub fn g64_add8(start: u64, v: [u8; 8]) -> u64 {
+    ghost::record(start, v, 8)
+}
+pub fn g64_add4(start: u64, v: [u8; 4]) -> u64 {
+    ghost::record(start, [v[0], v[1], v[2], v[3], 0, 0, 0, 0], 4)
+}
+pub fn g64_add2(start: u64, v: [u8; 2]) -> u64 {
+    ghost::record(start, [v[0], v[1], 0, 0, 0, 0, 0, 0], 2)
+}
+pub fn g32_add4(start: u32, v: [u8; 4]) -> u32 {
+    ghost::record(start as u64, [v[0], v[1], v[2], v[3], 0, 0, 0, 0], 4) as u32
+}
+pub fn g32_add2(start: u32, v: [u8; 2]) -> u32 {
+    ghost::record(start as u64, [v[0], v[1], 0, 0, 0, 0, 0, 0], 2) as u32
+}
+
+/// the logged calls are a front-to-back chunking of `s` (zero padded to even length) that
+/// threads the accumulator from `start` to `got`; `mask` = accumulator width
+fn check_chunking(start: u64, s: &[u8], got: u64, mask: u64, max_chunk: usize) {
+    let calls = unsafe { ghost::CALLS };
+    let mut acc = start;
+    let mut off = 0usize;
+    let mut k = 0usize;
+    while k < calls {
+        let (acc_in, acc_out, size, bytes) =
+            unsafe { (ghost::ACC_IN[k], ghost::ACC_OUT[k] & mask, ghost::SIZE[k] as usize, ghost::BYTES[k]) };
+        assert!(acc_in == acc, "accumulator is threaded from call to call");
+        assert!(size <= max_chunk);
+        assert!(off % 2 == 0, "chunks start at even offsets");
+        if off + size <= s.len() {
+            let mut j = 0usize;
+            while j < 8 {
+                if j < size {
+                    assert!(bytes[j] == s[off + j], "chunk is the next bytes of the slice");
+                }
+                j += 1;
+            }
+        } else {
+            // only the very last byte of an odd slice may be padded, with exactly one zero
+            assert!(size == 2 && off + 1 == s.len());
+            assert!(bytes[0] == s[off] && bytes[1] == 0);
+        }
+        off += size;
+        acc = acc_out;
+        k += 1;
+    }
+    assert!(off == s.len() + s.len() % 2, "every byte consumed exactly once");
+    assert!(got == acc, "the value of the last call is returned");
+}
+
+/// Native replay of a STRUCTURE counterexample (no stubs natively): the data bytes of such a
+/// counterexample are don't-cares for the solver, so besides the recorded bytes the end result
+/// is compared on the strings that make each single position matter (one non-zero byte).
+/// Only confirms an alarm the solver already raised; decides nothing.
+#[cfg(not(kani))]
+fn native_probe<const N: usize>(l: usize, data: &[u8; N], check: impl Fn(&[u8])) {
+    check(&data[..l]);
+    for j in 0..l {
+        let mut unit = [0u8; N];
+        unit[j] = 1;
+        check(&unit[..l]);
+        unit[j] = 0xff;
+        check(&unit[..l]);
+    }
+}
+
+/// bound of the structure harnesses
+pub const STRUCT_N: usize = 64;
+
+fn slice64_case(data: &[u8; STRUCT_N], l: usize, start: u64) {
+    // an object of exactly `l` bytes: every `get_unchecked` of the real loop is bounds checked
+    let buf = Tight::<STRUCT_N>::from_bytes(&data[..l]);
+    #[cfg(kani)]
+    {
+        ghost::reset();
+        let got = k64::add_slice(start, buf.slice());
+        check_chunking(start, &data[..l], got, u64::MAX, 8);
+    }
+    // native replay: no stubs, so compare the end result
+    #[cfg(not(kani))]
+    native_probe(l, data, |s| {
+        assert!(fold64(k64::add_slice(start, s)) == ref_ne(fold64(start), s), "C09 native: add_slice != reference");
+    });
+    #[cfg(not(kani))]
+    let _ = buf;
+}
+
+fn slice32_case(data: &[u8; STRUCT_N], l: usize, start: u32) {
+    let buf = Tight::<STRUCT_N>::from_bytes(&data[..l]);
+    #[cfg(kani)]
+    {
+        ghost::reset();
+        let got = k32::add_slice(start, buf.slice());
+        check_chunking(start as u64, &data[..l], got as u64, u32::MAX as u64, 4);
+    }
+    #[cfg(not(kani))]
+    native_probe(l, data, |s| {
+        assert!(fold32(k32::add_slice(start, s)) == ref_ne(fold32(start), s), "C09 native: add_slice != reference");
+    });
+    #[cfg(not(kani))]
+    let _ = buf;
+}
+
+/// the structure harnesses are cut in two: 0..=STRUCT_MID runs in the quick tier and is all the
+/// quick-tier compositions rely on (`m64_add_slice_q`), STRUCT_MID+1..=STRUCT_N in the thorough tier
+pub const STRUCT_MID: usize = 40;
+
+/// every length lo..=hi, all bytes, every 64-bit start value. The symbolic length is
+/// case-split by the harness (`l` is concrete inside the case), because a heap object of
+/// symbolic size costs 7 M variables / 15 min in CBMC's array theory for the same query.
+fn slice64_range(lo: usize, hi: usize) {
+    let len = any_le(hi);
+    assume(len >= lo);
+    let data: [u8; STRUCT_N] = any();
+    let start: u64 = any();
+    witness!(len == hi, "max_len");
+    witness!(len == lo, "min_len");
+    witness!(len % 8 == 7, "tails_4_2_1");
+    witness!(len % 8 == 1, "single_byte_tail");
+    let mut l = lo;
+    while l <= hi {
+        if l == len {
+            slice64_case(&data, l, start);
+        }
+        l += 1;
+    }
+}
+pub fn slice64_lo() {
+    slice64_range(0, STRUCT_MID)
+}
+pub fn slice64_hi() {
+    slice64_range(STRUCT_MID + 1, STRUCT_N)
+}
+
+fn slice32_range(lo: usize, hi: usize) {
+    let len = any_le(hi);
+    assume(len >= lo);
+    let data: [u8; STRUCT_N] = any();
+    let start: u32 = any();
+    witness!(len == hi, "max_len");
+    witness!(len == lo, "min_len");
+    witness!(len % 4 == 3, "tails_2_1");
+    witness!(len % 4 == 1, "single_byte_tail");
+    let mut l = lo;
+    while l <= hi {
+        if l == len {
+            slice32_case(&data, l, start);
+        }
+        l += 1;
+    }
+}
+pub fn slice32_lo() {
+    slice32_range(0, STRUCT_MID)
+}
+pub fn slice32_hi() {
+    slice32_range(STRUCT_MID + 1, STRUCT_N)
+}
+
+// ================================================================= layer 3: the reference itself
+
+/// RFC 1071 section 4.1, transcribed from the C reference: 32-bit deferred-carry sum of the
+/// big-endian 16-bit words, a trailing odd byte is the HIGH byte of a zero padded word,
+/// carries folded at the end, complemented. This is THE definition the property refers to.
+pub fn rfc1071(b: &[u8]) -> u16 {
+    let mut sum: u32 = 0;
+    let mut i = 0usize;
+    while i + 1 < b.len() {
+        sum += u32::from(u16::from_be_bytes([b[i], b[i + 1]]));
+        i += 2;
+    }
+    if i < b.len() {
+        sum += u32::from(b[i]) << 8;
+    }
+    !rfc_fold(sum)
+}
+/// "while (sum>>16) sum = (sum & 0xffff) + (sum >> 16);"
+#[inline(always)]
+fn rfc_fold(mut sum: u32) -> u16 {
+    while (sum >> 16) != 0 {
+        sum = (sum & 0xffff) + (sum >> 16);
+    }
+    sum as u16
+}
+
+/// The same checksum computed in native byte order (RFC 1071 section 2 (B), byte order
+/// independence): the in-memory bytes of the native-endian complement sum ARE the two wire
+/// bytes, i.e. the big-endian field value is `from_be_bytes(to_ne_bytes(!sum))`.
+/// `ref_step_lemmas` + `ref_matches_rfc1071` justify  ref_checksum(b) == rfc1071(b).
+pub fn ref_checksum(b: &[u8]) -> u16 {
+    u16::from_be_bytes((!ref_ne(0, b)).to_ne_bytes())
+}
+
+/// step lemmas (all values): byte swap commutes with `oadd`; `oadd` is commutative and
+/// associative with neutral element 0 on reduced values; deferred carries fold to `oadd`.
+/// By induction over the words:  rfc_fold(sum of BE words) == left fold of `oadd` over the BE
+/// words == swap(left fold over the swapped words), for every message below 2^16 words.
+pub fn ref_step_lemmas() {
+    let x: u16 = any();
+    let y: u16 = any();
+    let z: u16 = any();
+    assert!(oadd(x, y).swap_bytes() == oadd(x.swap_bytes(), y.swap_bytes()));
+    assert!(oadd(x, y) == oadd(y, x));
+    assert!(oadd(oadd(x, y), z) == oadd(x, oadd(y, z)));
+    assert!(oadd(x, 0) == x);
+    // the two byte orders of one 16-bit word
+    let b: [u8; 2] = any();
+    assert!(u16::from_be_bytes(b) == u16::from_le_bytes(b).swap_bytes());
+    // deferred carries: adding into the 32-bit sum and folding later == oadd now
+    let acc: u32 = any();
+    assume(acc <= u32::MAX - 0xffff);
+    witness!(((acc + u32::from(x)) & 0xffff) + ((acc + u32::from(x)) >> 16) > 0xffff, "two_fold_rounds");
+    assert!(rfc_fold(acc + u32::from(x)) == oadd(rfc_fold(acc), x));
+    assert!(rfc_fold(0) == 0);
+}
+
+/// bound of the direct comparison below
+pub const REF_N: usize = 16;
+
+/// direct comparison of the two formulations of the reference for short messages (the
+/// induction above is what carries it to every length; this guards the set-up of it)
+pub fn ref_matches_rfc1071() {
+    let data: [u8; REF_N] = any();
+    let len = any_le(REF_N);
+    witness!(len == REF_N, "max_len");
+    witness!(len == REF_N - 1, "odd_len");
+    assert!(ref_checksum(&data[..len]) == rfc1071(&data[..len]));
+}
+
+/// split independence of the reference: folding a prefix of even length first and continuing
+/// from its result is folding the whole string
+pub fn ref_split() {
+    let data: [u8; 24] = any();
+    let len = any_le(24);
+    let k = any_le(24);
+    let start: u16 = any();
+    assume(k <= len && k % 2 == 0);
+    witness!(k == 10 && len == 23, "even_split_of_odd_string");
+    assert!(ref_ne(ref_ne(start, &data[..k]), &data[k..len]) == ref_ne(start, &data[..len]));
+}
+
+// ================================================================= layer 4: protocol composition
+//
+// Kernels = reduced models (layer 1), add_slice = `ref_ne` from the reduced accumulator
+// (layers 1+2, asserted bound STRUCT_N). Expected value = ref_checksum over ONE byte string:
+// pseudo header || header with zero checksum field || payload, written from the RFCs.
+
+pub fn m64_add_slice(start: u64, slice: &[u8]) -> u64 {
+    assert!(slice.len() <= STRUCT_N, "C09 model: add_slice used beyond the bound proved in layer 2");
+    ref_ne(red(start), slice) as u64
+}
+/// the same model for the quick tier, which proves layer 2 only up to STRUCT_MID bytes
+pub fn m64_add_slice_q(start: u64, slice: &[u8]) -> u64 {
+    assert!(slice.len() <= STRUCT_MID, "C09 model: add_slice used beyond the bound proved in the quick tier");
+    ref_ne(red(start), slice) as u64
+}
+
+use etherparse::*;
+
+/// payload bound of the composition harnesses
+pub const PAY_N: usize = 8;
+
+fn ok<T, E>(r: Result<T, E>) -> T {
+    match r {
+        Ok(v) => v,
+        Err(_) => panic!("C09: Err for a payload of at most 8 bytes"),
+    }
+}
+
+/// message under construction (pseudo header, header, payload)
+pub struct Msg<const M: usize> {
+    pub b: [u8; M],
+    pub n: usize,
+}
+impl<const M: usize> Msg<M> {
+    pub fn new() -> Self {
+        Msg { b: [0u8; M], n: 0 }
+    }
+    pub fn put(&mut self, s: &[u8]) -> &mut Self {
+        self.b[self.n..self.n + s.len()].copy_from_slice(s);
+        self.n += s.len();
+        self
+    }
+    pub fn u8(&mut self, v: u8) -> &mut Self {
+        self.put(&[v])
+    }
+    pub fn u16(&mut self, v: u16) -> &mut Self {
+        self.put(&v.to_be_bytes())
+    }
+    pub fn u32(&mut self, v: u32) -> &mut Self {
+        self.put(&v.to_be_bytes())
+    }
+    pub fn bytes(&self) -> &[u8] {
+        &self.b[..self.n]
+    }
+    pub fn checksum(&self) -> u16 {
+        ref_checksum(self.bytes())
+    }
+}
+
+/// RFC 768 / RFC 9293 3.1 pseudo header for IPv4: src, dst, zero, protocol, 16-bit length
+fn pseudo_v4<const M: usize>(m: &mut Msg<M>, src: [u8; 4], dst: [u8; 4], proto: u8, len: u16) {
+    m.put(&src).put(&dst).u8(0).u8(proto).u16(len);
+}
+/// RFC 8200 8.1 pseudo header: src, dst, 32-bit upper-layer length, 3 zero bytes, next header
+fn pseudo_v6<const M: usize>(m: &mut Msg<M>, src: [u8; 16], dst: [u8; 16], next: u8, len: u32) {
+    m.put(&src).put(&dst).u32(len).u8(0).u8(0).u8(0).u8(next);
+}
+
+fn payload() -> ([u8; PAY_N], usize) {
+    let d: [u8; PAY_N] = any();
+    let n = any_le(PAY_N);
+    (d, n)
+}
+
+// ---------------------------------------------------------------- IPv4 header (RFC 791)
+
+pub struct V4 {
+    pub h: Ipv4Header,
+    pub odata: [u8; 40],
+    pub olen: usize,
+}
+
+pub fn sym_ipv4() -> V4 {
+    let dscp: u8 = any();
+    let ecn: u8 = any();
+    let fo: u16 = any();
+    assume(dscp < 64 && ecn < 4 && fo < 0x2000);
+    let odata: [u8; 40] = any();
+    let owords = any_le(10);
+    let olen = owords * 4;
+    let h = Ipv4Header {
+        dscp: IpDscp::try_new(dscp).unwrap(),
+        ecn: IpEcn::try_new(ecn).unwrap(),
+        total_len: any(),
+        identification: any(),
+        dont_fragment: any(),
+        more_fragments: any(),
+        fragment_offset: IpFragOffset::try_new(fo).unwrap(),
+        time_to_live: any(),
+        protocol: IpNumber(any()),
+        header_checksum: any(),
+        source: any(),
+        destination: any(),
+        options: ok(Ipv4Options::try_from(&odata[..olen])),
+    };
+    V4 { h, odata, olen }
+}
+
+/// RFC 791 3.1 header bytes with the checksum field zero
+fn ipv4_wire(v: &V4, m: &mut Msg<60>) {
+    let h = &v.h;
+    m.u8(0x40 | (5 + (v.olen / 4) as u8));
+    m.u8((h.dscp.value() << 2) | h.ecn.value());
+    m.u16(h.total_len);
+    m.u16(h.identification);
+    m.u16(((h.dont_fragment as u16) << 14) | ((h.more_fragments as u16) << 13) | h.fragment_offset.value());
+    m.u8(h.time_to_live);
+    m.u8(h.protocol.0);
+    m.u16(0);
+    m.put(&h.source);
+    m.put(&h.destination);
+    m.put(&v.odata[..v.olen]);
+}
+
+pub fn ipv4_header() {
+    let v = sym_ipv4();
+    let mut m = Msg::<60>::new();
+    ipv4_wire(&v, &mut m);
+    let want = m.checksum();
+    witness!(v.olen == 40, "max_options");
+    witness!(v.olen == 0, "no_options");
+    witness!(want == 0, "checksum_zero");
+    assert!(v.h.calc_header_checksum() == want);
+}
+
+// ---------------------------------------------------------------- UDP (RFC 768, RFC 8200 8.1)
+
+fn udp_want<const M: usize>(m: &Msg<M>) -> u16 {
+    // RFC 768: "If the computed checksum is zero, it is transmitted as all ones"
+    let c = m.checksum();
+    witness!(c == 0, "computed_zero_sent_as_ffff");
+    if c == 0 {
+        0xffff
+    } else {
+        c
+    }
+}
+
+pub fn udp_ipv4() {
+    let sp: u16 = any();
+    let dp: u16 = any();
+    let length: u16 = any();
+    let src: [u8; 4] = any();
+    let dst: [u8; 4] = any();
+    let (pd, pn) = payload();
+    let p = &pd[..pn];
+    let ip = Ipv4Header { source: src, destination: dst, ..Default::default() };
+    witness!(pn == 7, "odd_payload");
+    witness!(pn == 0, "empty_payload");
+
+    // with_*: the length field is header + payload
+    let w = ok(UdpHeader::with_ipv4_checksum(sp, dp, &ip, p));
+    let mut m = Msg::<28>::new();
+    pseudo_v4(&mut m, src, dst, 17, 8 + pn as u16);
+    m.u16(sp).u16(dp).u16(8 + pn as u16).u16(0).put(p);
+    assert!(w.source_port == sp && w.destination_port == dp && w.length == 8 + pn as u16);
+    assert!(w.checksum == udp_want(&m));
+    assert!(w.checksum != 0);
+
+    // calc_*: the header's own length field is what RFC 768 puts into the pseudo header
+    let h = UdpHeader { source_port: sp, destination_port: dp, length, checksum: any() };
+    let mut m = Msg::<28>::new();
+    pseudo_v4(&mut m, src, dst, 17, length);
+    m.u16(sp).u16(dp).u16(length).u16(0).put(p);
+    let want = udp_want(&m);
+    let a = ok(h.calc_checksum_ipv4(&ip, p));
+    let b = ok(h.calc_checksum_ipv4_raw(src, dst, p));
+    assert!(a == want);
+    assert!(b == want);
+    assert!(a != 0 && b != 0);
+}
+
+pub fn udp_ipv6() {
+    let sp: u16 = any();
+    let dp: u16 = any();
+    let length: u16 = any();
+    let src: [u8; 16] = any();
+    let dst: [u8; 16] = any();
+    let (pd, pn) = payload();
+    let p = &pd[..pn];
+    let ip = Ipv6Header { source: src, destination: dst, ..Default::default() };
+    witness!(pn == 7, "odd_payload");
+    witness!(pn == 0, "empty_payload");
+
+    let w = ok(UdpHeader::with_ipv6_checksum(sp, dp, &ip, p));
+    let mut m = Msg::<56>::new();
+    pseudo_v6(&mut m, src, dst, 17, 8 + pn as u32);
+    m.u16(sp).u16(dp).u16(8 + pn as u16).u16(0).put(p);
+    assert!(w.source_port == sp && w.destination_port == dp && w.length == 8 + pn as u16);
+    assert!(w.checksum == udp_want(&m));
+    assert!(w.checksum != 0);
+
+    // RFC 8200 8.1: for UDP the upper-layer length of the pseudo header is the Length field
+    let h = UdpHeader { source_port: sp, destination_port: dp, length, checksum: any() };
+    let mut m = Msg::<56>::new();
+    pseudo_v6(&mut m, src, dst, 17, u32::from(length));
+    m.u16(sp).u16(dp).u16(length).u16(0).put(p);
+    let want = udp_want(&m);
+    let a = ok(h.calc_checksum_ipv6(&ip, p));
+    let b = ok(h.calc_checksum_ipv6_raw(src, dst, p));
+    assert!(a == want);
+    assert!(b == want);
+    assert!(a != 0 && b != 0);
+}
+
+// ---------------------------------------------------------------- TCP (RFC 9293 3.1)
+
+pub struct Tcp {
+    pub h: TcpHeader,
+    pub odata: [u8; 40],
+    pub olen: usize,
+}
+
+pub fn sym_tcp() -> Tcp {
+    let odata: [u8; 40] = any();
+    let olen = any_le(40);
+    let h = TcpHeader {
+        source_port: any(),
+        destination_port: any(),
+        sequence_number: any(),
+        acknowledgment_number: any(),
+        ns: any(),
+        fin: any(),
+        syn: any(),
+        rst: any(),
+        psh: any(),
+        ack: any(),
+        urg: any(),
+        ece: any(),
+        cwr: any(),
+        window_size: any(),
+        checksum: any(),
+        urgent_pointer: any(),
+        options: ok(TcpOptions::try_from_slice(&odata[..olen])),
+    };
+    Tcp { h, odata, olen }
+}
+
+/// header length on the wire: options padded with zeros to a multiple of 4 (documented
+/// behaviour of `TcpOptions::try_from_slice`, RFC 9293: padding is zeros)
+fn tcp_hlen(t: &Tcp) -> usize {
+    20 + (t.olen + 3) / 4 * 4
+}
+
+/// RFC 9293 3.1 header bytes with the checksum field zero, followed by the payload
+fn tcp_wire<const M: usize>(t: &Tcp, m: &mut Msg<M>, pd: &[u8; PAY_N], pn: usize) {
+    let h = &t.h;
+    let hlen = tcp_hlen(t);
+    m.u16(h.source_port).u16(h.destination_port).u32(h.sequence_number).u32(h.acknowledgment_number);
+    // data offset (4 bit), reserved (3 bit, zero), NS (RFC 3540)
+    m.u8((((hlen / 4) as u8) << 4) | (h.ns as u8));
+    m.u8(((h.cwr as u8) << 7)
+        | ((h.ece as u8) << 6)
+        | ((h.urg as u8) << 5)
+        | ((h.ack as u8) << 4)
+        | ((h.psh as u8) << 3)
+        | ((h.rst as u8) << 2)
+        | ((h.syn as u8) << 1)
+        | (h.fin as u8));
+    m.u16(h.window_size).u16(0).u16(h.urgent_pointer);
+    // options, zero padding to the data offset, payload: written position by position (constant
+    // positions, selected values) - a copy to a symbolic offset is far more expensive in CBMC
+    let base = m.n;
+    let pad_end = hlen - 20;
+    let mut j = 0usize;
+    while j < 40 + PAY_N {
+        m.b[base + j] = if j < t.olen {
+            t.odata[j]
+        } else if j < pad_end {
+            0
+        } else if j - pad_end < pn {
+            pd[j - pad_end]
+        } else {
+            0
+        };
+        j += 1;
+    }
+    m.n = base + pad_end + pn;
+}
+
+pub fn tcp_ipv4() {
+    let t = sym_tcp();
+    let src: [u8; 4] = any();
+    let dst: [u8; 4] = any();
+    let (pd, pn) = payload();
+    let p = &pd[..pn];
+    let ip = Ipv4Header { source: src, destination: dst, ..Default::default() };
+    let hlen = tcp_hlen(&t);
+    witness!(t.olen == 40 && pn == 7, "max_options_odd_payload");
+    witness!(t.olen == 0 && pn == 0, "bare_header");
+    witness!(t.olen == 5, "options_padded");
+    let mut m = Msg::<80>::new();
+    pseudo_v4(&mut m, src, dst, 6, (hlen + pn) as u16);
+    tcp_wire(&t, &mut m, &pd, pn);
+    let want = m.checksum();
+    witness!(want == 0, "checksum_zero");
+    assert!(t.h.header_len() == hlen);
+    assert!(ok(t.h.calc_checksum_ipv4(&ip, p)) == want);
+    assert!(ok(t.h.calc_checksum_ipv4_raw(src, dst, p)) == want);
+}
+
+pub fn tcp_ipv6() {
+    let t = sym_tcp();
+    let src: [u8; 16] = any();
+    let dst: [u8; 16] = any();
+    let (pd, pn) = payload();
+    let p = &pd[..pn];
+    let ip = Ipv6Header { source: src, destination: dst, ..Default::default() };
+    let hlen = tcp_hlen(&t);
+    witness!(t.olen == 40 && pn == 7, "max_options_odd_payload");
+    witness!(t.olen == 0 && pn == 0, "bare_header");
+    let mut m = Msg::<108>::new();
+    pseudo_v6(&mut m, src, dst, 6, (hlen + pn) as u32);
+    tcp_wire(&t, &mut m, &pd, pn);
+    let want = m.checksum();
+    witness!(want == 0, "checksum_zero");
+    assert!(ok(t.h.calc_checksum_ipv6(&ip, p)) == want);
+    assert!(ok(t.h.calc_checksum_ipv6_raw(src, dst, p)) == want);
+}
+
+// ---------------------------------------------------------------- TCP from slices
+
+/// pseudo header already in `m`; appends the raw TCP header `raw[..hlen]` with bytes 16,17
+/// (checksum field) zeroed and the payload, position by position
+fn tcp_raw_wire<const M: usize>(m: &mut Msg<M>, raw: &[u8; 60 + PAY_N], hlen: usize, total: usize) {
+    let base = m.n;
+    let mut j = 0usize;
+    while j < 60 + PAY_N {
+        m.b[base + j] = if j < total && j != 16 && j != 17 { raw[j] } else { 0 };
+        j += 1;
+    }
+    assert!(hlen <= total);
+    m.n = base + total;
+}
+
+/// raw header + payload in one array (as `TcpSlice` wants it); the data offset is whatever
+/// the symbolic byte 12 says (>= 5, else the slice types reject the header)
+fn sym_tcp_raw() -> ([u8; 60 + PAY_N], usize, usize) {
+    let raw: [u8; 60 + PAY_N] = any();
+    let hlen = usize::from(raw[12] >> 4) * 4;
+    assume(hlen >= 20);
+    let pn = any_le(PAY_N);
+    (raw, hlen, pn)
+}
+
+fn sym_ipv4_raw(src: [u8; 4], dst: [u8; 4]) -> [u8; 20] {
+    let mut r: [u8; 20] = any();
+    r[0] = 0x45;
+    r[12..16].copy_from_slice(&src);
+    r[16..20].copy_from_slice(&dst);
+    r
+}
+fn sym_ipv6_raw(src: [u8; 16], dst: [u8; 16]) -> [u8; 40] {
+    let mut r: [u8; 40] = any();
+    r[0] = 0x60 | (r[0] & 0xf);
+    r[8..24].copy_from_slice(&src);
+    r[24..40].copy_from_slice(&dst);
+    r
+}
+
+pub fn tcp_header_slice_ipv4() {
+    let (raw, hlen, pn) = sym_tcp_raw();
+    let src: [u8; 4] = any();
+    let dst: [u8; 4] = any();
+    let ipraw = sym_ipv4_raw(src, dst);
+    let ip = ok(Ipv4HeaderSlice::from_slice(&ipraw));
+    // the payload of a header slice is a separate buffer
+    let (pd, _) = payload();
+    let p = &pd[..pn];
+    let mut both = raw;
+    both[hlen..hlen + pn].copy_from_slice(p);
+    let s = ok(TcpHeaderSlice::from_slice(&raw[..hlen]));
+    witness!(hlen == 60 && pn == 7, "max_options_odd_payload");
+    witness!(hlen == 20 && pn == 0, "bare_header");
+    let mut m = Msg::<80>::new();
+    pseudo_v4(&mut m, src, dst, 6, (hlen + pn) as u16);
+    tcp_raw_wire(&mut m, &both, hlen, hlen + pn);
+    let want = m.checksum();
+    assert!(ok(s.calc_checksum_ipv4(&ip, p)) == want);
+    assert!(ok(s.calc_checksum_ipv4_raw(src, dst, p)) == want);
+}
+
+pub fn tcp_header_slice_ipv6() {
+    let (raw, hlen, pn) = sym_tcp_raw();
+    let src: [u8; 16] = any();
+    let dst: [u8; 16] = any();
+    let ipraw = sym_ipv6_raw(src, dst);
+    let ip = ok(Ipv6HeaderSlice::from_slice(&ipraw));
+    let (pd, _) = payload();
+    let p = &pd[..pn];
+    let mut both = raw;
+    both[hlen..hlen + pn].copy_from_slice(p);
+    let s = ok(TcpHeaderSlice::from_slice(&raw[..hlen]));
+    witness!(hlen == 60 && pn == 7, "max_options_odd_payload");
+    witness!(hlen == 20 && pn == 0, "bare_header");
+    let mut m = Msg::<108>::new();
+    pseudo_v6(&mut m, src, dst, 6, (hlen + pn) as u32);
+    tcp_raw_wire(&mut m, &both, hlen, hlen + pn);
+    let want = m.checksum();
+    assert!(ok(s.calc_checksum_ipv6(&ip, p)) == want);
+    assert!(ok(s.calc_checksum_ipv6_raw(src, dst, p)) == want);
+}
+
+pub fn tcp_slice_ipv4() {
+    let (raw, hlen, pn) = sym_tcp_raw();
+    let src: [u8; 4] = any();
+    let dst: [u8; 4] = any();
+    let s = ok(TcpSlice::from_slice(&raw[..hlen + pn]));
+    witness!(hlen == 60 && pn == 7, "max_options_odd_payload");
+    witness!(hlen == 20 && pn == 0, "bare_header");
+    let mut m = Msg::<80>::new();
+    pseudo_v4(&mut m, src, dst, 6, (hlen + pn) as u16);
+    tcp_raw_wire(&mut m, &raw, hlen, hlen + pn);
+    assert!(ok(s.calc_checksum_ipv4(src, dst)) == m.checksum());
+}
+
+pub fn tcp_slice_ipv6() {
+    let (raw, hlen, pn) = sym_tcp_raw();
+    let src: [u8; 16] = any();
+    let dst: [u8; 16] = any();
+    let s = ok(TcpSlice::from_slice(&raw[..hlen + pn]));
+    witness!(hlen == 60 && pn == 7, "max_options_odd_payload");
+    witness!(hlen == 20 && pn == 0, "bare_header");
+    let mut m = Msg::<108>::new();
+    pseudo_v6(&mut m, src, dst, 6, (hlen + pn) as u32);
+    tcp_raw_wire(&mut m, &raw, hlen, hlen + pn);
+    assert!(ok(s.calc_checksum_ipv6(src, dst)) == m.checksum());
+}
+
+// ---------------------------------------------------------------- ICMPv4 (RFC 792, 1191, 1122, 1812)
+
+/// every variant of `Icmpv4Type` with symbolic content, and its RFC wire bytes (checksum 0)
+pub fn sym_icmpv4() -> (Icmpv4Type, [u8; 20], usize) {
+    use etherparse::icmpv4::*;
+    let sel: u8 = any();
+    let c: u8 = any();
+    let a: u16 = any();
+    let b: u16 = any();
+    let q: [u8; 4] = any();
+    let ts: [u32; 3] = [any(), any(), any()];
+    let mut w = [0u8; 20];
+    let mut n = 8usize;
+    assume(sel < 9);
+    let ab = |w: &mut [u8; 20]| {
+        w[4..6].copy_from_slice(&a.to_be_bytes());
+        w[6..8].copy_from_slice(&b.to_be_bytes());
+    };
+    let t = match sel {
+        0 => {
+            let ty: u8 = any();
+            w[0] = ty;
+            w[1] = c;
+            w[4..8].copy_from_slice(&q);
+            Icmpv4Type::Unknown { type_u8: ty, code_u8: c, bytes5to8: q }
+        }
+        1 => {
+            w[0] = 0;
+            ab(&mut w);
+            Icmpv4Type::EchoReply(IcmpEchoHeader { id: a, seq: b })
+        }
+        2 => {
+            use DestUnreachableHeader::*;
+            assume(c < 16);
+            w[0] = 3;
+            w[1] = c;
+            let h = match c {
+                0 => Network,
+                1 => Host,
+                2 => Protocol,
+                3 => Port,
+                4 => {
+                    // RFC 1191 section 4: unused (16 bit, zero), next-hop MTU (16 bit)
+                    w[6..8].copy_from_slice(&a.to_be_bytes());
+                    FragmentationNeeded { next_hop_mtu: a }
+                }
+                5 => SourceRouteFailed,
+                6 => NetworkUnknown,
+                7 => HostUnknown,
+                8 => Isolated,
+                9 => NetworkProhibited,
+                10 => HostProhibited,
+                11 => TosNetwork,
+                12 => TosHost,
+                13 => FilterProhibited,
+                14 => HostPrecedenceViolation,
+                _ => PrecedenceCutoff,
+            };
+            Icmpv4Type::DestinationUnreachable(h)
+        }
+        3 => {
+            use RedirectCode::*;
+            assume(c < 4);
+            w[0] = 5;
+            w[1] = c;
+            w[4..8].copy_from_slice(&q);
+            let code = match c {
+                0 => RedirectForNetwork,
+                1 => RedirectForHost,
+                2 => RedirectForTypeOfServiceAndNetwork,
+                _ => RedirectForTypeOfServiceAndHost,
+            };
+            Icmpv4Type::Redirect(RedirectHeader { code, gateway_internet_address: q })
+        }
+        4 => {
+            w[0] = 8;
+            ab(&mut w);
+            Icmpv4Type::EchoRequest(IcmpEchoHeader { id: a, seq: b })
+        }
+        5 => {
+            assume(c < 2);
+            w[0] = 11;
+            w[1] = c;
+            Icmpv4Type::TimeExceeded(if c == 0 {
+                TimeExceededCode::TtlExceededInTransit
+            } else {
+                TimeExceededCode::FragmentReassemblyTimeExceeded
+            })
+        }
+        6 => {
+            use ParameterProblemHeader::*;
+            assume(c < 3);
+            w[0] = 12;
+            w[1] = c;
+            Icmpv4Type::ParameterProblem(match c {
+                0 => {
+                    // RFC 792: pointer (8 bit), unused (24 bit)
+                    w[4] = q[0];
+                    PointerIndicatesError(q[0])
+                }
+                1 => MissingRequiredOption,
+                _ => BadLength,
+            })
+        }
+        _ => {
+            // RFC 792 timestamp / timestamp reply: id, seq, originate, receive, transmit
+            w[0] = if sel == 7 { 13 } else { 14 };
+            ab(&mut w);
+            w[8..12].copy_from_slice(&ts[0].to_be_bytes());
+            w[12..16].copy_from_slice(&ts[1].to_be_bytes());
+            w[16..20].copy_from_slice(&ts[2].to_be_bytes());
+            n = 20;
+            let msg = TimestampMessage {
+                id: a,
+                seq: b,
+                originate_timestamp: ts[0],
+                receive_timestamp: ts[1],
+                transmit_timestamp: ts[2],
+            };
+            if sel == 7 {
+                Icmpv4Type::TimestampRequest(msg)
+            } else {
+                Icmpv4Type::TimestampReply(msg)
+            }
+        }
+    };
+    witness!(sel == 0, "v4_unknown");
+    witness!(sel == 2 && c == 4, "v4_frag_needed");
+    witness!(sel == 2 && c == 15, "v4_precedence_cutoff");
+    witness!(sel == 3 && c == 3, "v4_redirect");
+    witness!(sel == 6 && c == 0, "v4_param_pointer");
+    witness!(sel == 8, "v4_timestamp_reply");
+    (t, w, n)
+}
+
+/// header bytes `w[..n]` followed by the payload, position by position
+fn put_hdr_payload<const M: usize>(m: &mut Msg<M>, w: &[u8; 20], n: usize, pd: &[u8; PAY_N], pn: usize) {
+    let base = m.n;
+    let mut j = 0usize;
+    while j < 20 + PAY_N {
+        m.b[base + j] = if j < n {
+            w[j]
+        } else if j - n < pn {
+            pd[j - n]
+        } else {
+            0
+        };
+        j += 1;
+    }
+    m.n = base + n + pn;
+}
+
+/// the crate's own serialisation with a zero checksum is the RFC header the oracle summed
+fn same_bytes(got: &[u8], w: &[u8; 20], n: usize) {
+    assert!(got.len() == n);
+    let mut j = 0usize;
+    while j < 20 {
+        if j < n {
+            assert!(got[j] == w[j]);
+        }
+        j += 1;
+    }
+}
+
+pub fn icmpv4() {
+    let (t, w, n) = sym_icmpv4();
+    let (pd, pn) = payload();
+    let p = &pd[..pn];
+    let mut m = Msg::<28>::new();
+    put_hdr_payload(&mut m, &w, n, &pd, pn);
+    let want = m.checksum();
+    witness!(pn == 7, "odd_payload");
+    witness!(want == 0, "checksum_zero");
+    assert!(t.calc_checksum(p) == want);
+    let h = Icmpv4Header::with_checksum(t.clone(), p);
+    assert!(h.checksum == want && h.icmp_type == t);
+    let mut h = Icmpv4Header { icmp_type: t.clone(), checksum: any() };
+    h.update_checksum(p);
+    assert!(h.checksum == want && h.icmp_type == t);
+    assert!(t.header_len() == n);
+    same_bytes(&Icmpv4Header { icmp_type: t, checksum: 0 }.to_bytes(), &w, n);
+}
+
+// ---------------------------------------------------------------- ICMPv6 (RFC 4443, 4861)
+
+pub fn sym_icmpv6() -> (Icmpv6Type, [u8; 20]) {
+    use etherparse::icmpv6::*;
+    let sel: u8 = any();
+    let c: u8 = any();
+    let a: u16 = any();
+    let b: u16 = any();
+    let q: [u8; 4] = any();
+    let f: [bool; 3] = [any(), any(), any()];
+    let mut w = [0u8; 20];
+    assume(sel < 12);
+    let t = match sel {
+        0 => {
+            let ty: u8 = any();
+            w[0] = ty;
+            w[1] = c;
+            w[4..8].copy_from_slice(&q);
+            Icmpv6Type::Unknown { type_u8: ty, code_u8: c, bytes5to8: q }
+        }
+        1 => {
+            use DestUnreachableCode::*;
+            assume(c < 7);
+            w[0] = 1;
+            w[1] = c;
+            Icmpv6Type::DestinationUnreachable(match c {
+                0 => NoRoute,
+                1 => Prohibited,
+                2 => BeyondScope,
+                3 => Address,
+                4 => Port,
+                5 => SourceAddressFailedPolicy,
+                _ => RejectRoute,
+            })
+        }
+        2 => {
+            w[0] = 2;
+            w[4..8].copy_from_slice(&q);
+            Icmpv6Type::PacketTooBig { mtu: u32::from_be_bytes(q) }
+        }
+        3 => {
+            assume(c < 2);
+            w[0] = 3;
+            w[1] = c;
+            Icmpv6Type::TimeExceeded(if c == 0 {
+                TimeExceededCode::HopLimitExceeded
+            } else {
+                TimeExceededCode::FragmentReassemblyTimeExceeded
+            })
+        }
+        4 => {
+            use ParameterProblemCode::*;
+            assume(c < 11);
+            w[0] = 4;
+            w[1] = c;
+            w[4..8].copy_from_slice(&q);
+            let code = match c {
+                0 => ErroneousHeaderField,
+                1 => UnrecognizedNextHeader,
+                2 => UnrecognizedIpv6Option,
+                3 => Ipv6FirstFragmentIncompleteHeaderChain,
+                4 => SrUpperLayerHeaderError,
+                5 => UnrecognizedNextHeaderByIntermediateNode,
+                6 => ExtensionHeaderTooBig,
+                7 => ExtensionHeaderChainTooLong,
+                8 => TooManyExtensionHeaders,
+                9 => TooManyOptionsInExtensionHeader,
+                _ => OptionTooBig,
+            };
+            Icmpv6Type::ParameterProblem(ParameterProblemHeader { code, pointer: u32::from_be_bytes(q) })
+        }
+        5 | 6 => {
+            w[0] = if sel == 5 { 128 } else { 129 };
+            w[4..6].copy_from_slice(&a.to_be_bytes());
+            w[6..8].copy_from_slice(&b.to_be_bytes());
+            let e = IcmpEchoHeader { id: a, seq: b };
+            if sel == 5 {
+                Icmpv6Type::EchoRequest(e)
+            } else {
+                Icmpv6Type::EchoReply(e)
+            }
+        }
+        7 => {
+            w[0] = 133;
+            Icmpv6Type::RouterSolicitation
+        }
+        8 => {
+            // RFC 4861 4.2: cur hop limit, M, O, reserved (6 bit), router lifetime
+            w[0] = 134;
+            w[4] = c;
+            w[5] = ((f[0] as u8) << 7) | ((f[1] as u8) << 6);
+            w[6..8].copy_from_slice(&a.to_be_bytes());
+            Icmpv6Type::RouterAdvertisement(RouterAdvertisementHeader {
+                cur_hop_limit: c,
+                managed_address_config: f[0],
+                other_config: f[1],
+                router_lifetime: a,
+            })
+        }
+        9 => {
+            w[0] = 135;
+            Icmpv6Type::NeighborSolicitation
+        }
+        10 => {
+            // RFC 4861 4.4: R, S, O, reserved (29 bit)
+            w[0] = 136;
+            w[4] = ((f[0] as u8) << 7) | ((f[1] as u8) << 6) | ((f[2] as u8) << 5);
+            Icmpv6Type::NeighborAdvertisement(NeighborAdvertisementHeader {
+                router: f[0],
+                solicited: f[1],
+                r#override: f[2],
+            })
+        }
+        _ => {
+            w[0] = 137;
+            Icmpv6Type::Redirect
+        }
+    };
+    witness!(sel == 0, "v6_unknown");
+    witness!(sel == 1 && c == 6, "v6_reject_route");
+    witness!(sel == 2, "v6_packet_too_big");
+    witness!(sel == 4 && c == 10, "v6_param_option_too_big");
+    witness!(sel == 8, "v6_router_advertisement");
+    witness!(sel == 10, "v6_neighbor_advertisement");
+    witness!(sel == 11, "v6_redirect");
+    (t, w)
+}
+
+pub fn icmpv6() {
+    let (t, w) = sym_icmpv6();
+    let src: [u8; 16] = any();
+    let dst: [u8; 16] = any();
+    let (pd, pn) = payload();
+    let p = &pd[..pn];
+    let mut m = Msg::<68>::new();
+    // RFC 4443 2.3: pseudo header with next header 58 and the length of the ICMPv6 message
+    pseudo_v6(&mut m, src, dst, 58, (8 + pn) as u32);
+    put_hdr_payload(&mut m, &w, 8, &pd, pn);
+    let want = m.checksum();
+    witness!(pn == 7, "odd_payload");
+    witness!(want == 0, "checksum_zero");
+    assert!(ok(t.calc_checksum(src, dst, p)) == want);
+    let h = ok(Icmpv6Header::with_checksum(t, src, dst, p));
+    assert!(h.checksum == want && h.icmp_type == t);
+    let mut h = Icmpv6Header { icmp_type: t, checksum: any() };
+    ok(h.update_checksum(src, dst, p));
+    assert!(h.checksum == want && h.icmp_type == t);
+    let h = ok(t.to_header(src, dst, p));
+    assert!(h.checksum == want && h.icmp_type == t);
+    assert!(t.header_len() == 8);
+    same_bytes(&Icmpv6Header { icmp_type: t, checksum: 0 }.to_bytes(), &w, 8);
+}
+
+/// validation accepts exactly the messages whose complete sum (pseudo header and the
+/// message INCLUDING its checksum field) is 0xffff
+pub fn icmpv6_valid() {
+    let raw: [u8; 8 + PAY_N] = any();
+    let len = any_le(8 + PAY_N);
+    assume(len >= 8);
+    let src: [u8; 16] = any();
+    let dst: [u8; 16] = any();
+    let s = ok(Icmpv6Slice::from_slice(&raw[..len]));
+    let mut m = Msg::<56>::new();
+    pseudo_v6(&mut m, src, dst, 58, len as u32);
+    let base = m.n;
+    m.b[base..base + 8 + PAY_N].copy_from_slice(&raw);
+    m.n = base + len;
+    let complete = ref_ne(0, m.bytes());
+    let valid = s.is_checksum_valid(src, dst);
+    witness!(valid, "accepted");
+    witness!(!valid, "rejected");
+    witness!(valid && len == 15, "accepted_odd_len");
+    assert!(valid == (complete == 0xffff));
+}
+
+// ---------------------------------------------------------------- IGMP (RFC 1112, 2236, 3376, 9776)
+
+pub fn sym_igmp() -> (IgmpType, [u8; 20], usize) {
+    use etherparse::igmp::*;
+    let sel: u8 = any();
+    let c: u8 = any();
+    let d: u8 = any();
+    let e: u8 = any();
+    let a: u16 = any();
+    let q: [u8; 4] = any();
+    let mut w = [0u8; 20];
+    let mut n = 8usize;
+    assume(sel < 7);
+    let ga = GroupAddress { octets: q };
+    let t = match sel {
+        0 => {
+            // RFC 2236 2: type 0x11, max resp time, checksum, group address
+            w[0] = 0x11;
+            w[1] = c;
+            w[4..8].copy_from_slice(&q);
+            IgmpType::MembershipQuery(MembershipQueryType { max_response_time: c, group_address: ga })
+        }
+        1 => {
+            // RFC 3376 4.1: ... Resv|S|QRV, QQIC, number of sources
+            w[0] = 0x11;
+            w[1] = c;
+            w[4..8].copy_from_slice(&q);
+            w[8] = d;
+            w[9] = e;
+            w[10..12].copy_from_slice(&a.to_be_bytes());
+            n = 12;
+            IgmpType::MembershipQueryWithSources(MembershipQueryWithSourcesHeader {
+                max_response_code: MaxResponseCode(c),
+                group_address: ga,
+                raw_byte_8: d,
+                qqic: e,
+                num_of_sources: a,
+            })
+        }
+        2 => {
+            // RFC 1112 appendix I: version 1, type 2, unused (zero)
+            w[0] = 0x12;
+            w[4..8].copy_from_slice(&q);
+            IgmpType::MembershipReportV1(MembershipReportV1Type { group_address: ga })
+        }
+        3 => {
+            // RFC 2236 2.2: max resp time is zero in reports
+            w[0] = 0x16;
+            w[4..8].copy_from_slice(&q);
+            IgmpType::MembershipReportV2(MembershipReportV2Type { group_address: ga })
+        }
+        4 => {
+            // RFC 3376 4.2 / RFC 9776: type 0x22, reserved, checksum, flags, number of records
+            w[0] = 0x22;
+            w[4] = c;
+            w[5] = d;
+            w[6..8].copy_from_slice(&a.to_be_bytes());
+            IgmpType::MembershipReportV3(MembershipReportV3Header { flags: [c, d], num_of_records: a })
+        }
+        5 => {
+            w[0] = 0x17;
+            w[4..8].copy_from_slice(&q);
+            IgmpType::LeaveGroup(LeaveGroupType { group_address: ga })
+        }
+        _ => {
+            w[0] = c;
+            w[1] = d;
+            w[4..8].copy_from_slice(&q);
+            IgmpType::Unknown(UnknownHeader { igmp_type: c, raw_byte_1: d, raw_bytes_4_7: q })
+        }
+    };
+    witness!(sel == 1, "igmp_query_with_sources");
+    witness!(sel == 4, "igmp_report_v3");
+    witness!(sel == 6, "igmp_unknown");
+    (t, w, n)
+}
+
+pub fn igmp() {
+    let (t, w, n) = sym_igmp();
+    let (pd, pn) = payload();
+    let p = &pd[..pn];
+    let mut m = Msg::<28>::new();
+    put_hdr_payload(&mut m, &w, n, &pd, pn);
+    let want = m.checksum();
+    witness!(pn == 7, "odd_payload");
+    witness!(want == 0, "checksum_zero");
+    let h = IgmpHeader { igmp_type: t.clone(), checksum: any() };
+    assert!(h.calc_checksum(p) == want);
+    let h = IgmpHeader::with_checksum(t.clone(), p);
+    assert!(h.checksum == want && h.igmp_type == t);
+    assert!(h.header_len() == n);
+    same_bytes(&IgmpHeader { igmp_type: t, checksum: 0 }.to_bytes(), &w, n);
+}
+
+// ---------------------------------------------------------------- TransportHeader dispatch
+
+pub fn transport_ipv4_udp_icmp() {
+    let src: [u8; 4] = any();
+    let dst: [u8; 4] = any();
+    let ip = Ipv4Header { source: src, destination: dst, ..Default::default() };
+    let (pd, pn) = payload();
+    let p = &pd[..pn];
+    let sel: u8 = any();
+    assume(sel < 3);
+    witness!(sel == 0, "udp");
+    witness!(sel == 1, "icmpv4");
+    witness!(sel == 2, "icmpv6_in_ipv4");
+    if sel == 0 {
+        let (sp, dp, length): (u16, u16, u16) = (any(), any(), any());
+        let mut t = TransportHeader::Udp(UdpHeader { source_port: sp, destination_port: dp, length, checksum: any() });
+        let r = t.update_checksum_ipv4(&ip, p);
+        let mut m = Msg::<28>::new();
+        pseudo_v4(&mut m, src, dst, 17, length);
+        m.u16(sp).u16(dp).u16(length).u16(0).put(p);
+        let want = udp_want(&m);
+        assert!(r.is_ok());
+        assert!(t == TransportHeader::Udp(UdpHeader { source_port: sp, destination_port: dp, length, checksum: want }));
+    } else if sel == 1 {
+        let (ty, w, n) = sym_icmpv4();
+        let mut t = TransportHeader::Icmpv4(Icmpv4Header { icmp_type: ty.clone(), checksum: any() });
+        let r = t.update_checksum_ipv4(&ip, p);
+        let mut m = Msg::<28>::new();
+        put_hdr_payload(&mut m, &w, n, &pd, pn);
+        assert!(r.is_ok());
+        assert!(t == TransportHeader::Icmpv4(Icmpv4Header { icmp_type: ty, checksum: m.checksum() }));
+    } else {
+        // ICMPv6 has no defined checksum over an IPv4 pseudo header: documented error, header untouched
+        let (ty, _) = sym_icmpv6();
+        let c: u16 = any();
+        let mut t = TransportHeader::Icmpv6(Icmpv6Header { icmp_type: ty, checksum: c });
+        let r = t.update_checksum_ipv4(&ip, p);
+        assert!(r == Err(err::packet::TransportChecksumError::Icmpv6InIpv4));
+        assert!(t == TransportHeader::Icmpv6(Icmpv6Header { icmp_type: ty, checksum: c }));
+    }
+}
+
+pub fn transport_ipv4_tcp() {
+    let src: [u8; 4] = any();
+    let dst: [u8; 4] = any();
+    let ip = Ipv4Header { source: src, destination: dst, ..Default::default() };
+    let (pd, pn) = payload();
+    let tcp = sym_tcp();
+    let hlen = tcp_hlen(&tcp);
+    witness!(tcp.olen == 40 && pn == 7, "max_options_odd_payload");
+    let mut m = Msg::<80>::new();
+    pseudo_v4(&mut m, src, dst, 6, (hlen + pn) as u16);
+    tcp_wire(&tcp, &mut m, &pd, pn);
+    let mut want = tcp.h.clone();
+    want.checksum = m.checksum();
+    let mut t = TransportHeader::Tcp(tcp.h);
+    let r = t.update_checksum_ipv4(&ip, &pd[..pn]);
+    assert!(r.is_ok());
+    assert!(t == TransportHeader::Tcp(want));
+}
+
+pub fn transport_ipv6_udp_icmp() {
+    let src: [u8; 16] = any();
+    let dst: [u8; 16] = any();
+    let ip = Ipv6Header { source: src, destination: dst, ..Default::default() };
+    let (pd, pn) = payload();
+    let p = &pd[..pn];
+    let sel: u8 = any();
+    assume(sel < 3);
+    witness!(sel == 0, "udp");
+    witness!(sel == 1, "icmpv4_in_ipv6");
+    witness!(sel == 2, "icmpv6");
+    if sel == 0 {
+        let (sp, dp, length): (u16, u16, u16) = (any(), any(), any());
+        let mut t = TransportHeader::Udp(UdpHeader { source_port: sp, destination_port: dp, length, checksum: any() });
+        let r = t.update_checksum_ipv6(&ip, p);
+        let mut m = Msg::<56>::new();
+        pseudo_v6(&mut m, src, dst, 17, u32::from(length));
+        m.u16(sp).u16(dp).u16(length).u16(0).put(p);
+        let want = udp_want(&m);
+        assert!(r.is_ok());
+        assert!(t == TransportHeader::Udp(UdpHeader { source_port: sp, destination_port: dp, length, checksum: want }));
+    } else if sel == 1 {
+        // ICMPv4 has no pseudo header (RFC 792), whatever carries it
+        let (ty, w, n) = sym_icmpv4();
+        let mut t = TransportHeader::Icmpv4(Icmpv4Header { icmp_type: ty.clone(), checksum: any() });
+        let r = t.update_checksum_ipv6(&ip, p);
+        let mut m = Msg::<28>::new();
+        put_hdr_payload(&mut m, &w, n, &pd, pn);
+        assert!(r.is_ok());
+        assert!(t == TransportHeader::Icmpv4(Icmpv4Header { icmp_type: ty, checksum: m.checksum() }));
+    } else {
+        let (ty, w) = sym_icmpv6();
+        let mut t = TransportHeader::Icmpv6(Icmpv6Header { icmp_type: ty, checksum: any() });
+        let r = t.update_checksum_ipv6(&ip, p);
+        let mut m = Msg::<68>::new();
+        pseudo_v6(&mut m, src, dst, 58, (8 + pn) as u32);
+        put_hdr_payload(&mut m, &w, 8, &pd, pn);
+        assert!(r.is_ok());
+        assert!(t == TransportHeader::Icmpv6(Icmpv6Header { icmp_type: ty, checksum: m.checksum() }));
+    }
+}
+
+pub fn transport_ipv6_tcp() {
+    let src: [u8; 16] = any();
+    let dst: [u8; 16] = any();
+    let ip = Ipv6Header { source: src, destination: dst, ..Default::default() };
+    let (pd, pn) = payload();
+    let tcp = sym_tcp();
+    let hlen = tcp_hlen(&tcp);
+    witness!(tcp.olen == 40 && pn == 7, "max_options_odd_payload");
+    let mut m = Msg::<108>::new();
+    pseudo_v6(&mut m, src, dst, 6, (hlen + pn) as u32);
+    tcp_wire(&tcp, &mut m, &pd, pn);
+    let mut want = tcp.h.clone();
+    want.checksum = m.checksum();
+    let mut t = TransportHeader::Tcp(tcp.h);
+    let r = t.update_checksum_ipv6(&ip, &pd[..pn]);
+    assert!(r.is_ok());
+    assert!(t == TransportHeader::Tcp(want));
+}
+
+// ---------------------------------------------------------------- split independence (real code)
+
+/// bound of the split harness
+pub const SPLIT_N: usize = 24;
+
+fn split64_case(data: &[u8; SPLIT_N], l: usize, k: usize, start: u64) {
+    #[cfg(kani)]
+    {
+        ghost::reset();
+        let first = k64::add_slice(start, &data[..k]);
+        let got = k64::add_slice(first, &data[k..l]);
+        // the two calls together are ONE front-to-back chunking of the whole string
+        check_chunking(start, &data[..l], got, u64::MAX, 8);
+    }
+    #[cfg(not(kani))]
+    native_probe(l, data, |s| {
+        let two = k64::add_slice(k64::add_slice(start, &s[..k]), &s[k..]);
+        assert!(fold64(two) == ref_ne(fold64(start), s), "C09 native: split add_slice != reference");
+    });
+}
+
+/// successive additions of the two parts of a string split at ANY even offset consume
+/// exactly the words of the whole string in order (kernels uninterpreted, as in layer 2);
+/// by induction this covers any number of even splits
+pub fn split64() {
+    let len = any_le(SPLIT_N);
+    let cut = any_le(SPLIT_N);
+    assume(cut <= len && cut % 2 == 0);
+    let data: [u8; SPLIT_N] = any();
+    let start: u64 = any();
+    witness!(len == SPLIT_N - 1 && cut == 10, "odd_string_cut_in_the_middle");
+    witness!(len == SPLIT_N && cut == SPLIT_N, "cut_at_the_end");
+    let mut l = 0usize;
+    while l <= SPLIT_N {
+        let mut k = 0usize;
+        while k <= l {
+            if l == len && k == cut {
+                split64_case(&data, l, k, start);
+            }
+            k += 2;
+        }
+        l += 1;
+    }
+}
+
+// ---------------------------------------------------------------- Sum16BitWords (public wrapper)
+
+/// the accumulator type forwards to the module functions of the pointer-width's module
+pub fn sum16_api() {
+    let a2: [u8; 2] = any();
+    let a4: [u8; 4] = any();
+    let a8: [u8; 8] = any();
+    let a16: [u8; 16] = any();
+    let data: [u8; 9] = any();
+    let n = any_le(9);
+    let s = &data[..n];
+    let x = Sum16BitWords::new().add_2bytes(a2).add_4bytes(a4).add_8bytes(a8).add_16bytes(a16).add_slice(s);
+    let lo: [u8; 8] = [a16[0], a16[1], a16[2], a16[3], a16[4], a16[5], a16[6], a16[7]];
+    let hi: [u8; 8] = [a16[8], a16[9], a16[10], a16[11], a16[12], a16[13], a16[14], a16[15]];
+    #[cfg(target_pointer_width = "64")]
+    let (c, z) = {
+        let y = k64::add_2bytes(0, a2);
+        let y = k64::add_4bytes(y, a4);
+        let y = k64::add_8bytes(y, a8);
+        let y = k64::add_8bytes(k64::add_8bytes(y, lo), hi);
+        let y = k64::add_slice(y, s);
+        (k64::ones_complement(y), k64::ones_complement_with_no_zero(y))
+    };
+    #[cfg(not(target_pointer_width = "64"))]
+    let (c, z) = {
+        let h = |v: &[u8; 8], o: usize| [v[o], v[o + 1], v[o + 2], v[o + 3]];
+        let y = k32::add_2bytes(0, a2);
+        let y = k32::add_4bytes(y, a4);
+        let y = k32::add_4bytes(k32::add_4bytes(y, h(&a8, 0)), h(&a8, 4));
+        let y = k32::add_4bytes(k32::add_4bytes(y, h(&lo, 0)), h(&lo, 4));
+        let y = k32::add_4bytes(k32::add_4bytes(y, h(&hi, 0)), h(&hi, 4));
+        let y = k32::add_slice(y, s);
+        (k32::ones_complement(y), k32::ones_complement_with_no_zero(y))
+    };
+    witness!(n == 9, "slice_with_8_byte_word_and_tail");
+    assert!(x.ones_complement() == c);
+    assert!(x.to_ones_complement_with_no_zero() == z);
+    assert!(Sum16BitWords::new().ones_complement() == 0xffff);
+    assert!(Sum16BitWords::default() == Sum16BitWords::new());
+}
+
+/// no stub, no model: real kernels, real add_slice, against the literal RFC 1071 routine for
+/// short strings (what the layered argument must reproduce where a direct query is feasible)
+pub const E2E_N: usize = 8;
+pub fn e2e_small() {
+    let data: [u8; E2E_N] = any();
+    let n = any_le(E2E_N);
+    witness!(n == E2E_N, "max_len");
+    witness!(n == E2E_N - 1, "odd_len");
+    let s = &data[..n];
+    assert!(Sum16BitWords::new().add_slice(s).ones_complement().to_be() == rfc1071(s));
+    assert!(k32::ones_complement(k32::add_slice(0, s)).to_be() == rfc1071(s));
+}
+
+// ---------------------------------------------------------------- checksums filled in on write
+
+pub fn ipv4_write() {
+    let v = sym_ipv4();
+    let mut m = Msg::<60>::new();
+    ipv4_wire(&v, &mut m);
+    let want = m.checksum();
+    let mut out = [0u8; 60];
+    let left = {
+        let mut cur = &mut out[..];
+        let r = v.h.write(&mut cur);
+        assert!(r.is_ok());
+        cur.len()
+    };
+    witness!(v.olen == 40, "max_options");
+    assert!(60 - left == 20 + v.olen);
+    assert!(out[10] == (want >> 8) as u8 && out[11] == want as u8);
+}
+
+fn be16(b: &[u8], i: usize) -> u16 {
+    u16::from_be_bytes([b[i], b[i + 1]])
+}
+
+/// PacketBuilder IPv4 + UDP: both checksums in the emitted bytes are the RFC values over the
+/// emitted bytes (receiver's view: everything is read back from the output)
+pub fn builder_ipv4_udp() {
+    let src: [u8; 4] = any();
+    let dst: [u8; 4] = any();
+    let ttl: u8 = any();
+    let sp: u16 = any();
+    let dp: u16 = any();
+    let (pd, pn) = payload();
+    let b = PacketBuilder::ipv4(src, dst, ttl).udp(sp, dp);
+    let mut out = [0u8; 28 + PAY_N];
+    let left = {
+        let mut cur = &mut out[..];
+        let r = b.write(&mut cur, &pd[..pn]);
+        assert!(r.is_ok());
+        cur.len()
+    };
+    witness!(pn == 7, "odd_payload");
+    assert!(28 + PAY_N - left == 28 + pn);
+    // IPv4 header checksum over the 20 emitted header bytes
+    let mut h = Msg::<20>::new();
+    h.put(&out[..10]).u16(0).put(&out[12..20]);
+    assert!(be16(&out, 10) == h.checksum());
+    assert!(out[0] == 0x45 && out[9] == 17 && out[12..16] == src && out[16..20] == dst);
+    assert!(be16(&out, 2) == 28 + pn as u16);
+    // UDP checksum over pseudo header, emitted UDP header and payload
+    assert!(be16(&out, 20) == sp && be16(&out, 22) == dp && be16(&out, 24) == 8 + pn as u16);
+    let mut m = Msg::<28>::new();
+    pseudo_v4(&mut m, src, dst, 17, be16(&out, 24));
+    m.put(&out[20..26]).u16(0).put(&pd[..pn]);
+    assert!(be16(&out, 26) == udp_want(&m));
+    assert!(be16(&out, 26) != 0);
+}
+
+crate::harnesses! {
+    c09_k64_add2 = k64_add2; unwind 2,
+    c09_k64_limb0 = k64_limb0; unwind 2,
+    c09_k64_limb1 = k64_limb1; unwind 2,
+    c09_k64_limb2 = k64_limb2; unwind 2,
+    c09_k64_limb3 = k64_limb3; unwind 2,
+    c09_k64_split8 = k64_split8; unwind 2,
+    c09_k64_add4_widen = k64_add4_widen; unwind 2,
+    c09_k64_words_and_reduced = k64_words_and_reduced; unwind 2,
+    c09_k_no_zero = k_no_zero; unwind 2,
+    c09_k32_add2 = k32_add2; unwind 2,
+    c09_k32_limb0 = k32_limb0; unwind 2,
+    c09_k32_limb1 = k32_limb1; unwind 2,
+    c09_k32_split4 = k32_split4; unwind 2,
+    #[kani::stub(etherparse::checksum::u64_16bit_word::add_8bytes, crate::c09::g64_add8)]
+    #[kani::stub(etherparse::checksum::u64_16bit_word::add_4bytes, crate::c09::g64_add4)]
+    #[kani::stub(etherparse::checksum::u64_16bit_word::add_2bytes, crate::c09::g64_add2)]
+    c09_slice64_lo = slice64_lo; unwind 43,
+    #[kani::stub(etherparse::checksum::u64_16bit_word::add_8bytes, crate::c09::g64_add8)]
+    #[kani::stub(etherparse::checksum::u64_16bit_word::add_4bytes, crate::c09::g64_add4)]
+    #[kani::stub(etherparse::checksum::u64_16bit_word::add_2bytes, crate::c09::g64_add2)]
+    c09_slice64_hi = slice64_hi; unwind 27,
+    #[kani::stub(etherparse::checksum::u32_16bit_word::add_4bytes, crate::c09::g32_add4)]
+    #[kani::stub(etherparse::checksum::u32_16bit_word::add_2bytes, crate::c09::g32_add2)]
+    c09_slice32_lo = slice32_lo; unwind 43,
+    #[kani::stub(etherparse::checksum::u32_16bit_word::add_4bytes, crate::c09::g32_add4)]
+    #[kani::stub(etherparse::checksum::u32_16bit_word::add_2bytes, crate::c09::g32_add2)]
+    c09_slice32_hi = slice32_hi; unwind 27,
+    c09_ref_step_lemmas = ref_step_lemmas; unwind 4,
+    c09_ref_matches_rfc1071 = ref_matches_rfc1071; unwind 10,
+    c09_ref_split = ref_split; unwind 14,
+    #[kani::stub(etherparse::checksum::u64_16bit_word::add_8bytes, crate::c09::m64_add8)]
+    #[kani::stub(etherparse::checksum::u64_16bit_word::add_4bytes, crate::c09::m64_add4)]
+    #[kani::stub(etherparse::checksum::u64_16bit_word::add_2bytes, crate::c09::m64_add2)]
+    #[kani::stub(etherparse::checksum::u64_16bit_word::add_slice, crate::c09::m64_add_slice_q)]
+    c09_ipv4_header = ipv4_header; unwind 32,
+    #[kani::stub(etherparse::checksum::u64_16bit_word::add_8bytes, crate::c09::m64_add8)]
+    #[kani::stub(etherparse::checksum::u64_16bit_word::add_4bytes, crate::c09::m64_add4)]
+    #[kani::stub(etherparse::checksum::u64_16bit_word::add_2bytes, crate::c09::m64_add2)]
+    #[kani::stub(etherparse::checksum::u64_16bit_word::add_slice, crate::c09::m64_add_slice_q)]
+    c09_udp_ipv4 = udp_ipv4; unwind 30,
+    #[kani::stub(etherparse::checksum::u64_16bit_word::add_8bytes, crate::c09::m64_add8)]
+    #[kani::stub(etherparse::checksum::u64_16bit_word::add_4bytes, crate::c09::m64_add4)]
+    #[kani::stub(etherparse::checksum::u64_16bit_word::add_2bytes, crate::c09::m64_add2)]
+    #[kani::stub(etherparse::checksum::u64_16bit_word::add_slice, crate::c09::m64_add_slice_q)]
+    c09_udp_ipv6 = udp_ipv6; unwind 30,
+    #[kani::stub(etherparse::checksum::u64_16bit_word::add_8bytes, crate::c09::m64_add8)]
+    #[kani::stub(etherparse::checksum::u64_16bit_word::add_4bytes, crate::c09::m64_add4)]
+    #[kani::stub(etherparse::checksum::u64_16bit_word::add_2bytes, crate::c09::m64_add2)]
+    #[kani::stub(etherparse::checksum::u64_16bit_word::add_slice, crate::c09::m64_add_slice_q)]
+    c09_tcp_ipv4 = tcp_ipv4; unwind 56,
+    #[kani::stub(etherparse::checksum::u64_16bit_word::add_8bytes, crate::c09::m64_add8)]
+    #[kani::stub(etherparse::checksum::u64_16bit_word::add_4bytes, crate::c09::m64_add4)]
+    #[kani::stub(etherparse::checksum::u64_16bit_word::add_2bytes, crate::c09::m64_add2)]
+    #[kani::stub(etherparse::checksum::u64_16bit_word::add_slice, crate::c09::m64_add_slice_q)]
+    c09_tcp_ipv6 = tcp_ipv6; unwind 56,
+    #[kani::stub(etherparse::checksum::u64_16bit_word::add_8bytes, crate::c09::m64_add8)]
+    #[kani::stub(etherparse::checksum::u64_16bit_word::add_4bytes, crate::c09::m64_add4)]
+    #[kani::stub(etherparse::checksum::u64_16bit_word::add_2bytes, crate::c09::m64_add2)]
+    #[kani::stub(etherparse::checksum::u64_16bit_word::add_slice, crate::c09::m64_add_slice)]
+    c09_tcp_header_slice_ipv4 = tcp_header_slice_ipv4; unwind 70,
+    #[kani::stub(etherparse::checksum::u64_16bit_word::add_8bytes, crate::c09::m64_add8)]
+    #[kani::stub(etherparse::checksum::u64_16bit_word::add_4bytes, crate::c09::m64_add4)]
+    #[kani::stub(etherparse::checksum::u64_16bit_word::add_2bytes, crate::c09::m64_add2)]
+    #[kani::stub(etherparse::checksum::u64_16bit_word::add_slice, crate::c09::m64_add_slice)]
+    c09_tcp_header_slice_ipv6 = tcp_header_slice_ipv6; unwind 70,
+    #[kani::stub(etherparse::checksum::u64_16bit_word::add_8bytes, crate::c09::m64_add8)]
+    #[kani::stub(etherparse::checksum::u64_16bit_word::add_4bytes, crate::c09::m64_add4)]
+    #[kani::stub(etherparse::checksum::u64_16bit_word::add_2bytes, crate::c09::m64_add2)]
+    #[kani::stub(etherparse::checksum::u64_16bit_word::add_slice, crate::c09::m64_add_slice)]
+    c09_tcp_slice_ipv4 = tcp_slice_ipv4; unwind 70,
+    #[kani::stub(etherparse::checksum::u64_16bit_word::add_8bytes, crate::c09::m64_add8)]
+    #[kani::stub(etherparse::checksum::u64_16bit_word::add_4bytes, crate::c09::m64_add4)]
+    #[kani::stub(etherparse::checksum::u64_16bit_word::add_2bytes, crate::c09::m64_add2)]
+    #[kani::stub(etherparse::checksum::u64_16bit_word::add_slice, crate::c09::m64_add_slice)]
+    c09_tcp_slice_ipv6 = tcp_slice_ipv6; unwind 70,
+    #[kani::stub(etherparse::checksum::u64_16bit_word::add_8bytes, crate::c09::m64_add8)]
+    #[kani::stub(etherparse::checksum::u64_16bit_word::add_4bytes, crate::c09::m64_add4)]
+    #[kani::stub(etherparse::checksum::u64_16bit_word::add_2bytes, crate::c09::m64_add2)]
+    #[kani::stub(etherparse::checksum::u64_16bit_word::add_slice, crate::c09::m64_add_slice)]
+    c09_icmpv4 = icmpv4; unwind 30,
+    #[kani::stub(etherparse::checksum::u64_16bit_word::add_8bytes, crate::c09::m64_add8)]
+    #[kani::stub(etherparse::checksum::u64_16bit_word::add_4bytes, crate::c09::m64_add4)]
+    #[kani::stub(etherparse::checksum::u64_16bit_word::add_2bytes, crate::c09::m64_add2)]
+    #[kani::stub(etherparse::checksum::u64_16bit_word::add_slice, crate::c09::m64_add_slice)]
+    c09_icmpv6 = icmpv6; unwind 36,
+    #[kani::stub(etherparse::checksum::u64_16bit_word::add_8bytes, crate::c09::m64_add8)]
+    #[kani::stub(etherparse::checksum::u64_16bit_word::add_4bytes, crate::c09::m64_add4)]
+    #[kani::stub(etherparse::checksum::u64_16bit_word::add_2bytes, crate::c09::m64_add2)]
+    #[kani::stub(etherparse::checksum::u64_16bit_word::add_slice, crate::c09::m64_add_slice)]
+    c09_icmpv6_valid = icmpv6_valid; unwind 30,
+    #[kani::stub(etherparse::checksum::u64_16bit_word::add_8bytes, crate::c09::m64_add8)]
+    #[kani::stub(etherparse::checksum::u64_16bit_word::add_4bytes, crate::c09::m64_add4)]
+    #[kani::stub(etherparse::checksum::u64_16bit_word::add_2bytes, crate::c09::m64_add2)]
+    #[kani::stub(etherparse::checksum::u64_16bit_word::add_slice, crate::c09::m64_add_slice)]
+    c09_igmp = igmp; unwind 30,
+    #[kani::stub(etherparse::checksum::u64_16bit_word::add_8bytes, crate::c09::m64_add8)]
+    #[kani::stub(etherparse::checksum::u64_16bit_word::add_4bytes, crate::c09::m64_add4)]
+    #[kani::stub(etherparse::checksum::u64_16bit_word::add_2bytes, crate::c09::m64_add2)]
+    #[kani::stub(etherparse::checksum::u64_16bit_word::add_slice, crate::c09::m64_add_slice)]
+    c09_transport_ipv4_udp_icmp = transport_ipv4_udp_icmp; unwind 30,
+    #[kani::stub(etherparse::checksum::u64_16bit_word::add_8bytes, crate::c09::m64_add8)]
+    #[kani::stub(etherparse::checksum::u64_16bit_word::add_4bytes, crate::c09::m64_add4)]
+    #[kani::stub(etherparse::checksum::u64_16bit_word::add_2bytes, crate::c09::m64_add2)]
+    #[kani::stub(etherparse::checksum::u64_16bit_word::add_slice, crate::c09::m64_add_slice)]
+    c09_transport_ipv4_tcp = transport_ipv4_tcp; unwind 56,
+    #[kani::stub(etherparse::checksum::u64_16bit_word::add_8bytes, crate::c09::m64_add8)]
+    #[kani::stub(etherparse::checksum::u64_16bit_word::add_4bytes, crate::c09::m64_add4)]
+    #[kani::stub(etherparse::checksum::u64_16bit_word::add_2bytes, crate::c09::m64_add2)]
+    #[kani::stub(etherparse::checksum::u64_16bit_word::add_slice, crate::c09::m64_add_slice)]
+    c09_transport_ipv6_udp_icmp = transport_ipv6_udp_icmp; unwind 36,
+    #[kani::stub(etherparse::checksum::u64_16bit_word::add_8bytes, crate::c09::m64_add8)]
+    #[kani::stub(etherparse::checksum::u64_16bit_word::add_4bytes, crate::c09::m64_add4)]
+    #[kani::stub(etherparse::checksum::u64_16bit_word::add_2bytes, crate::c09::m64_add2)]
+    #[kani::stub(etherparse::checksum::u64_16bit_word::add_slice, crate::c09::m64_add_slice)]
+    c09_transport_ipv6_tcp = transport_ipv6_tcp; unwind 56,
+    #[kani::stub(etherparse::checksum::u64_16bit_word::add_8bytes, crate::c09::g64_add8)]
+    #[kani::stub(etherparse::checksum::u64_16bit_word::add_4bytes, crate::c09::g64_add4)]
+    #[kani::stub(etherparse::checksum::u64_16bit_word::add_2bytes, crate::c09::g64_add2)]
+    c09_split64 = split64; unwind 27,
+    c09_sum16_api = sum16_api; unwind 8,
+    c09_e2e_small = e2e_small; unwind 8,
+    #[kani::stub(etherparse::checksum::u64_16bit_word::add_8bytes, crate::c09::m64_add8)]
+    #[kani::stub(etherparse::checksum::u64_16bit_word::add_4bytes, crate::c09::m64_add4)]
+    #[kani::stub(etherparse::checksum::u64_16bit_word::add_2bytes, crate::c09::m64_add2)]
+    #[kani::stub(etherparse::checksum::u64_16bit_word::add_slice, crate::c09::m64_add_slice)]
+    c09_ipv4_write = ipv4_write; unwind 32,
+    #[kani::stub(etherparse::checksum::u64_16bit_word::add_8bytes, crate::c09::m64_add8)]
+    #[kani::stub(etherparse::checksum::u64_16bit_word::add_4bytes, crate::c09::m64_add4)]
+    #[kani::stub(etherparse::checksum::u64_16bit_word::add_2bytes, crate::c09::m64_add2)]
+    #[kani::stub(etherparse::checksum::u64_16bit_word::add_slice, crate::c09::m64_add_slice)]
+    c09_builder_ipv4_udp = builder_ipv4_udp; unwind 30,
+}
